@@ -152,8 +152,12 @@ int main(int argc, char** argv)
         auto jobs = vh::read_jobs(argv[2]);
         FILE* out = fopen(argv[3], "w");
         if (!out) { perror("out"); rc = 2; return; }
+        const char* thr = getenv("VERIF_THREADS");
         for (const auto& d : descs)
-            vh::serve_one([&] { return host::make_parser(d); }, d.id, jobs, out);
+        {
+            if (thr) vh::serve_threads([&] { return host::make_parser(d); }, d.id, jobs, out, atoi(thr));
+            else vh::serve_one([&] { return host::make_parser(d); }, d.id, jobs, out);
+        }
         fclose(out);
     });
     return rc;
